@@ -793,12 +793,11 @@ impl File {
             mode,
             &src.name
         );
-        assert_ne!(
-            self.id,
-            src.id,
-            "{} cannot depend on itself",
-            dep.as_ref().display()
-        );
+        if self.id == src.id {
+            // A target that asks for itself is the shortest dependency cycle.
+            log_err!("{} cannot depend on itself\n", dep.as_ref().display());
+            return Err(RedoErrorKind::CyclicDependency.into());
+        }
         ptx.write(
             "insert or replace into Deps (target, mode, source, delete_me) values (?,?,?,?)",
             params!(self.id, mode, src.id, false),
